@@ -82,8 +82,10 @@ func runC02(c *Ctx) {
 	c.Rule("C02.O12", "E4", "every kernel read of a read loop gets the whole buffer: after *pbuf = (*pbuf)[:n] the buffer is restored to its capacity (or paid back and borrowed again) before the next read; a buffer left cut to a small count truncates the next datagram", 3)
 	c.Rule("C02.O13", "E7", "the short-count exit of a read loop is taken for stream sockets only (a short datagram does not mean the socket is drained)", 3)
 	c.Rule("C02.O14", "E4", "a hang-up event closes the connection only after what the peer sent before it was read: the synchronous loop's per-event bound is lifted under the hang-up flag, and the close is ordered after the read", 2)
+	c.Rule("C02.O15", "E4,E5", "edge-triggered mode reads until EAGAIN: the per-event read bound is lifted under EpollMod == EPOLLET in code that runs when the pollers start (the mode can still be changed after NewEngine), and both the synchronous loop and the read tasks use the lifted bound", 1)
 	c.Rule("C02.O8", "E4", "udpConn.getConn: same key for lookup and insert; session created, stored and announced on the miss edge only", 2)
 	c02Published(c)
+	c02ETOverride(c)
 	c02PassThrough(c)
 	if fn := c.Fn("C02.O10", "(*nbio.Conn).ResetPollerEvent"); fn != nil {
 		bad := ""
@@ -315,6 +317,15 @@ func runC02(c *Ctx) {
 					continue
 				}
 				found = true
+				// the count is compared with the length of the very buffer that was read into
+				if x, isLen := ir.IsLenOf(ir.Resolve(b.Y)); !isLen {
+					bad = "the read count is compared with " + c.P.Desc(b.Y) + " (" + c.Pos(i) + "), not with the length of the buffer that was read into: with a read-buffer allocator that hands out other sizes a full buffer is taken for a short read and pending data is left behind"
+				} else if a, isLoad := ir.IsLoad(ir.Resolve(x)); !isLoad || ir.Resolve(a) != ir.Resolve(rl.pbuf) {
+					bad = "the read count is compared with the length of " + c.P.Desc(x) + " (" + c.Pos(i) + "), not of the buffer that was read into"
+				}
+				if bad != "" {
+					continue
+				}
 				// from the short-count edge, leaving the loop (not reading again, reaching the
 				// gate / the loop's exit) must not be possible along a non-stream edge ... i.e.
 				// every way out passes a stream-type test on its stream edge
@@ -1179,4 +1190,61 @@ func c02PhiTypes(c *Ctx, fi *ir.FnInfo, ph *ssa.Phi, want bool) (map[int64]bool,
 		}
 	}
 	return out, true
+}
+
+// c02ETOverride: O15.
+func c02ETOverride(c *Ctx) {
+	pstart := c.Fn("C02.O15", "(*nbio.poller).start")
+	if pstart == nil {
+		return
+	}
+	reach := map[*ssa.Function]bool{}
+	var walk func(f *ssa.Function)
+	walk = func(f *ssa.Function) {
+		if reach[f] {
+			return
+		}
+		reach[f] = true
+		for _, g := range ir.WithClosures(f) {
+			reach[g] = true
+		}
+		for _, g := range c.staticCallees(f) {
+			walk(g)
+		}
+	}
+	walk(pstart)
+	et := c.pkgConstInt("nbio", "EPOLLET")
+	isETFact := func(ft ir.Fact) bool {
+		cmp, ok := ir.DecodeIntCmp(ft.Cond)
+		return ok && strings.HasSuffix(c.P.LoadedField(cmp.Expr), ".EpollMod") && !cmp.NotEq && cmp.TrueSet.Lo == et && cmp.TrueSet.Hi == et && ft.Truth
+	}
+	const fBound = "nbio.Config.MaxConnReadTimesPerEventLoop"
+	ok := false
+	where := ""
+	for _, f := range c.nbioFuncs() {
+		fi := c.P.Info(f)
+		for _, st := range c.P.StoresTo(f, fBound) {
+			k, isK := ir.ConstInt(st.Val)
+			if !isK || k < 1<<30 {
+				continue
+			}
+			if !fi.HasFact(st, isETFact) {
+				continue
+			}
+			if reach[f] {
+				ok = true
+			} else {
+				where = c.P.FuncName(f) + " (" + c.Pos(st) + ")"
+			}
+		}
+	}
+	// or a local lift in every read loop (checked for the sync loop; the tasks read the field)
+	bad := ""
+	if !ok {
+		bad = "the per-event read bound is not lifted for edge-triggered mode in code that runs when the pollers start"
+		if where != "" {
+			bad += " (it is lifted in " + where + ", before the mode is final: an engine switched to EPOLLET afterwards keeps the level-triggered bound, and whatever a burst leaves beyond it is never read because no further edge arrives)"
+		}
+	}
+	c.Cond(bad == "", "C02.O15", "edge-triggered mode reads until EAGAIN", c.FnPos(pstart), "bound lifted under EpollMod == EPOLLET at poller start", bad)
 }
